@@ -273,6 +273,23 @@ func (c *Ctx) matchAt(s *Str, i int, pat string) *Term {
 
 func (c *Ctx) HasPrefix(s *Str, p string) *Term { return c.matchAt(s, 0, p) }
 
+// HasPrefixSym: p is a prefix of s, both symbolic.
+func (c *Ctx) HasPrefixSym(s, p *Str) *Term {
+	r := c.Ule(p.Len, s.Len)
+	for j := 0; j < len(p.Ch); j++ {
+		var sc *Term
+		if j < len(s.Ch) {
+			sc = s.Ch[j]
+		} else {
+			// p longer than s's capacity at this position: only fine if j >= p.Len
+			r = c.And(r, c.Ule(p.Len, c.L(j)))
+			continue
+		}
+		r = c.And(r, c.Or(c.Ule(p.Len, c.L(j)), c.Eq(sc, p.Ch[j])))
+	}
+	return r
+}
+
 func (c *Ctx) HasSuffix(s *Str, p string) *Term {
 	r := c.F
 	for i := 0; i+len(p) <= len(s.Ch); i++ {
